@@ -451,6 +451,10 @@ impl<'tcx> TyGenContext<'_, 'tcx> {
                 let (requires_buf, error_ret) = match return_type {
                     ReturnType::Fallible(s, Some(e)) => {
                         let type_name = self.formatter.fmt_type_name(e.id().unwrap());
+                        if self.tcx.resolve_type(e.id().unwrap()).attrs().disable {
+                            self.errors
+                                .push_error(format!("Found usage of disabled type {type_name}"))
+                        }
                         self.add_import(type_name, None, super::gen::ImportUsage::Both);
 
                         let fields_empty = matches!(e, Type::Struct(s) if match s.resolve(self.tcx) {
